@@ -245,6 +245,7 @@ class Run(object):
         self.workdir = os.path.join(WORK, pid)
         shutil.rmtree(self.workdir, ignore_errors=True)
         os.makedirs(self.workdir, exist_ok=True)
+        shutil.rmtree(os.path.join(REPLAYS, pid), ignore_errors=True)
 
     # model checking of the design
     def mc(self, module, cfg=None, **kw):
